@@ -7,6 +7,23 @@ from checks.common import *          # noqa: F401,F403
 from checks import xcheck
 
 
+def confirm_alignment(values, native):
+    v = values[0]
+    ans = native.ask('blank %d' % v)
+    f = OV.parse_fields(ans)
+    n = iso.size(v + 1)
+    raw = bytes.fromhex(f['data']) if 'data' in f else b''
+    g = iso.geometry(v + 1)
+    replay = {'request': 'blank %d' % v}
+    if int(f.get('size', 0)) != n:
+        return True, 'version %d has size %s, expected %d' % (v + 1, f.get('size'), n), replay
+    for r in range(n):
+        for c in range(n):
+            if (g['label'][r][c] == iso.ALIGN) != ((raw[r * n + c] & 0xFE) == iso.ALIGN):
+                return True, 'version %d: alignment pattern membership of module (%d,%d) differs from ISO Annex E' % (v + 1, r, c), replay
+    return False, 'kani counterexample (version %d) not reproduced' % (v + 1), replay
+
+
 def main(argv):
     chk = Check('C03', argv, features='svg')
     chk.rule = ('one obligation per module of the n x n symbol (plus the tail of the backing array) per version, over a symbolic '
@@ -14,6 +31,8 @@ def main(argv):
                 'must nevertheless be the ISO constant); '
                 'distinct by (version, mode, obligation index)')
     chk.load()
+    chk.run_kani([{'harness': 'c03_alignment_grid_and_size', 'key': 'C03/alignment-table', 'confirm': confirm_alignment,
+                   'symbolic': 'version index < 40 (all versions)'}])
     xcheck.run_matrix_jobs(chk, ['C03'])
     chk.finish()
 
